@@ -131,7 +131,9 @@ def run(ctx):
                 elif sorted(started) != sorted(want_first):
                     bad = ("wrong-catch-steps", f"catch steps started {started}, the catch for {out.get('on')!r} on {catcher_nid} declares {want_first}")
                 else:
-                    pending_catch.setdefault(k, []).extend(s["id"] for c in decl if c.get("on") == out.get("on") for s in c.get("steps", []))
+                    for c in decl:
+                        if c.get("on") == out.get("on") and c.get("steps"):
+                            pending_catch.setdefault(k, []).append([s["id"] for s in c["steps"]])
                 if pev_err:
                     bad = ("error-event-despite-catch", "the process delivered an error event although the error was caught")
         elif kind == "uncaught":
@@ -169,24 +171,26 @@ def run(ctx):
                 last = o
         if last is None or last["state"] not in ("completed",):
             continue
-        count = {}
+        inst = {}
         for t in last["tasks"]:
-            count[t["nid"]] = count.get(t["nid"], 0) + 1
-        for sid in set(ids):
-            if count.get(sid, 0) != ids.count(sid):
-                flagged.add(k)
-                ctx.violation("C06|catch-steps-not-run-once", f"catch step {sid} ran {count.get(sid, 0)} times for {ids.count(sid)} caught error(s) although the process completed",
-                              {"scenario": sc, "catch_steps": ids})
+            inst.setdefault(t["nid"], []).append(t["state"])
+        # per handler list h1..hn: h1 runs once per caught error; h(k+1) runs once per instance of h(k) that handed over (completed / skipped),
+        # and not at all after an instance of h(k) that failed (its error went to an outer catch) or was closed otherwise
+        taken = {}
+        for lst in ids:
+            taken[tuple(lst)] = taken.get(tuple(lst), 0) + 1
+        for lst, ncaught in taken.items():
+            want = ncaught
+            for j, sid in enumerate(lst):
+                got = len(inst.get(sid, []))
+                if got != want:
+                    flagged.add(k)
+                    ctx.violation("C06|catch-steps-not-run-once", f"catch step {sid} (step {j + 1} of its handler) ran {got} times, expected {want} ({ncaught} caught error(s); predecessors {[(x, inst.get(x)) for x in lst[:j]]}) although the process completed",
+                                  {"scenario": sc, "catch_steps": list(lst)})
+                    break
+                want = sum(1 for st in inst.get(sid, []) if st in ("completed", "skipped"))
+            if k in flagged:
                 break
-    # flow continues after a caught error: with everything answered the process ends without error unless an error stayed uncaught
-    for k, (sc, res, mod) in enumerate(zip(scs, results, models)):
-        if k in flagged:
-            continue
-        r = opcorr.compare(sc, res, mod, ["new", "tr", "ptr", "res", "queue", "gen", "pev"], with_dump=True)
-        if r and r[1] not in ("unsupported", "exec-after-removal", "engine-stuck"):
-            ctx.proof_break("correspondence: Op model", f"{sc['id']} op {r[0]} stream {r[1]}: {r[2][:300]}")
-        else:
-            stats["op_model_agree"] += 1
     ctx.sample({"scenario": scs[0]["id"], "model": scs[0]["models"][0], "ops": scs[0]["ops"][:8]}, limit=1)
     ctx.cov["correspondence"] = {"distribution": stats, "streams_compared": ["transitions/creations/error events of every error action vs Catch.bubble on the pre-error chain", "whole stepped run vs Op model"]}
     ctx.cov["rule"] = ("catches at act and step level, nested two deep, several codes, catch-all, empty catch, several catches with the same code; errors e1/e2/e3 raised at any open act, "
